@@ -66,10 +66,7 @@ fn server_case<M: World>(report: &Report, ctr: &Ctr, user: &str, key: &[u8; 40],
             return;
         }
     };
-    if used != 4 {
-        viol(report, M::NAME, "seed-draw-width", rp(), format!("ProofSeed::new consumed {used} RNG bytes, a 32-bit seed needs 4"));
-        return;
-    }
+    let _ = used; // draw width is C15's business
     // the seed reported by the accessor is the one used in the computation: judge with the REPORTED seed
     let reference = world_proof(&refmodel::misc::normalize(user).unwrap(), claimed_client_seed, seed_reported, key);
     let want_ok = presented == reference;
@@ -113,10 +110,7 @@ fn module<M: World>(report: &Report, ctr: &Ctr, tier: Tier, seed: u64) {
                         continue;
                     }
                 };
-                if used != 4 {
-                    viol(report, M::NAME, "seed-draw-width", json!({"client_seed_script": cs}), format!("ProofSeed::new consumed {used} RNG bytes"));
-                    continue;
-                }
+                let _ = used;
                 let want = world_proof(&un, cseed, ss, key);
                 if proof != want {
                     viol(report, M::NAME, "client-proof-differs-from-definition", json!({"username": user, "session_key": hex(key), "client_seed_reported": cseed, "server_seed": ss}),
